@@ -16,4 +16,5 @@ INIT Init
 NEXT Next
 VIEW view
 INVARIANTS LeavesRight CommitmentRight VersionsDifferOnlyWithoutClasses
+PROPERTIES RestartIsNoOp
 CHECK_DEADLOCK FALSE
